@@ -24,8 +24,9 @@ used — ties, zeros, negatives, ±0, ∞ and even NaN inputs are covered as far
 * `C01_spec`      any greedy-valid dendrogram in the sense of the label-based specification is
                   well-formed (`C06_wellFormed`).
 
-NOT yet proved (named `_partial` where a theorem exists): that the raw steps of `nnchain_with` and
-`generic_with` form a spanning tree.  Both need algorithm-specific invariants (chain entries are
+NOT proved when this header was written — NOW PROVED under explicit hypotheses in the sections
+appended at the end of this file (`C01_generic`; `C01_nnchain*`, `C01_linkage`): that the raw steps of
+`nnchain_with` and `generic_with` form a spanning tree.  Both need algorithm-specific invariants (chain entries are
 live and distinct — which in turn needs reducibility of the update, false under float rounding for
 average/Ward in ~11% of tied updates; `nearest[x]` is live and > x plus the heap invariants of
 `Lemmas/HeapInv*.lean`).  For these two entry points the claim rests on the bit-exact correspondence
@@ -38,6 +39,7 @@ import Kodama.Lemmas.PrimRun
 import Kodama.Lemmas.GenericRun
 import Kodama.Spec.WellFormed
 import Kodama.Model.Linkage
+import Kodama.Props.C12
 namespace Kodama
 open Spec
 variable {α : Type} [Num α]
@@ -181,5 +183,90 @@ theorem C01_generic {G : α → Prop} (L : OrderLaws α) (gs : GoodSet G) (chk :
   have := C01_relabel m st1.set uf dend1 rel n h2 hres.obs hres.raw hrel
   refine ⟨?_, wellFormed_sqrtSteps m n rel this.2⟩
   unfold sqrtSteps; split <;> exact this.1
+
+end Kodama
+
+/-!
+### Appended: `nnchain_with` (chain invariant, `Lemmas/Chain{Mat,Scan,Inv,Iter,Run,Exact}.lean`)
+
+* `C01_nnchain`   under `OrderLaws α`, NaN-free (squared) input and the named algebraic hypothesis
+                  `ChainReducible α mc` (`Lemmas/ChainIter.lean`): the chain invariant
+                  (`ChainInv` / `ChainL`) makes the chain entries pairwise distinct live clusters, so
+                  every merge joins two distinct live clusters, the raw steps form a spanning tree
+                  (`nnchainWith_eq`) and the result is well-formed with `observations = n`.
+* `C01_nnchain_single_complete`  `Single` / `Complete` WITHOUT the reducibility hypothesis.
+* `C01_nnchain_exact`  all five chain methods in exact arithmetic (`FieldLaws K`, no NaN).
+* `C01_linkage`   through `linkage_with` for every method it routes to mst or nnchain.
+
+NOT proved: `ChainReducible` for average / weighted / Ward over IEEE floats (FALSE there: rounding
+breaks it in ~11% of tied updates) — for these on floats the claim rests on the bit-exact
+correspondence and the structural validator.
+-/
+namespace Kodama
+open Spec
+variable {α : Type} [Num α]
+
+
+theorem C01_nnchain (L : OrderLaws α) (chk : Bool) (mc : MethodChain) (hred : ChainReducible α mc)
+    (st st' : State α) (d d' : Dendrogram α) (data : Array α) (n : Nat) (M' : Mat α)
+    (h2 : 2 ≤ n) (hs : n < 2147483648) (hl : 2 * data.size = n * (n - 1))
+    (hnan : NoNaNData (squareData mc.intoMethod data))
+    (h : nnchainWith chk mc st d data n = .ok (st', d', M')) :
+    d'.obs = n ∧ WellFormed n d'.steps.toList := by
+  obtain ⟨s1, hres, heq⟩ := nnchainWith_eq L chk mc hred st d data n h2 hs hl hnan
+  rw [heq] at h
+  obtain ⟨⟨uf, rel⟩, hrel, hr⟩ := bind_ok.mp h
+  simp only [pure_ok, Prod.mk.injEq] at hr
+  rw [← hr.2.1]
+  have := C01_relabel mc.intoMethod s1.st.set uf s1.dend rel n h2 hres.obs hres.raw hrel
+  refine ⟨?_, wellFormed_sqrtSteps mc.intoMethod n rel this.2⟩
+  unfold sqrtSteps; split <;> exact this.1
+
+theorem C01_nnchain_single_complete (L : OrderLaws α) (chk : Bool) (mc : MethodChain)
+    (hmc : mc = .single ∨ mc = .complete) (st st' : State α) (d d' : Dendrogram α)
+    (data : Array α) (n : Nat) (M' : Mat α) (h2 : 2 ≤ n) (hs : n < 2147483648)
+    (hl : 2 * data.size = n * (n - 1)) (hnan : NoNaNData data)
+    (h : nnchainWith chk mc st d data n = .ok (st', d', M')) :
+    d'.obs = n ∧ WellFormed n d'.steps.toList :=
+  C01_nnchain L chk mc (chainReducible_single_complete mc hmc) st st' d d' data n M' h2 hs hl
+    (by rw [squareData_single_complete mc hmc]; exact hnan) h
+
+theorem C01_nnchain_exact {K : Type} [Field K] [LinearOrder K] [IsStrictOrderedRing K] [Num K]
+    (F : FieldLaws K) (hnn : ∀ x : K, Num.isNaN x = false) (chk : Bool) (mc : MethodChain)
+    (st st' : State K) (d d' : Dendrogram K) (data : Array K) (n : Nat) (M' : Mat K) (h2 : 2 ≤ n)
+    (hs : n < 2147483648) (hl : 2 * data.size = n * (n - 1))
+    (h : nnchainWith chk mc st d data n = .ok (st', d', M')) :
+    d'.obs = n ∧ WellFormed n d'.steps.toList :=
+  C01_nnchain (orderLaws_of_fieldLaws F) chk mc (chainReducible_exact F hnn mc) st st' d d' data n M'
+    h2 hs hl (fun _ _ => hnn _) h
+
+/-- `linkage_with` for the five methods it serves through mst / nnchain (generated dispatch table). -/
+theorem C01_linkage (L : OrderLaws α) (chk : Bool) (m : Method)
+    (hred : ∀ mc, m.intoMethodChain = some mc → ChainReducible α mc)
+    (hm : m.requiresSorting = true)
+    (st st' : State α) (d d' : Dendrogram α) (data : Array α) (n : Nat) (M' : Mat α)
+    (h2 : 2 ≤ n) (hs : n < 2147483648) (hl : 2 * data.size = n * (n - 1))
+    (hnan : m ≠ .single → NoNaNData (squareData m data))
+    (h : linkageWith chk m st d data n = .ok (st', d', M')) :
+    d'.obs = n ∧ WellFormed n d'.steps.toList := by
+  by_cases hsingle : m = .single
+  · subst hsingle
+    exact C01_linkage_single chk st st' d d' data n M' h2 hs hl h
+  · cases hmc : m.intoMethodChain with
+    | none => cases m <;> simp [Method.intoMethodChain, Method.requiresSorting] at hmc hm
+    | some mc =>
+      rw [linkageWith_nnchain chk m mc hsingle hmc] at h
+      have hround := intoMethodChain_roundtrip m mc hmc
+      exact C01_nnchain L chk mc (hred mc hmc) st st' d d' data n M' h2 hs hl
+        (by rw [hround]; exact hnan hsingle) h
+
+/-- Non-vacuity of the nnchain statements: see the `example`s at the end of `Props/C12.lean`
+(toy exact number type, a valid 4-point matrix); here the conclusion for that input. -/
+example (st' : State Nat) (d' : Dendrogram Nat) (M' : Mat Nat)
+    (h : @nnchainWith Nat Toy.natNum true .complete State.new (Dendrogram.new 4)
+      (#[5, 2, 9, 7, 4, 1] : Array Nat) 4 = .ok (st', d', M')) :
+    d'.obs = 4 ∧ WellFormed 4 d'.steps.toList :=
+  @C01_nnchain_single_complete Nat Toy.natNum Toy.natOrderLaws true .complete (Or.inr rfl) _ st' _ d'
+    _ 4 M' (by decide) (by decide) (by decide) (fun _ _ => rfl) h
 
 end Kodama
